@@ -344,6 +344,23 @@ def run_job(job, repo, outdir, info):
                     fn_texts.append(t)
                     info["slices"].append(dict(src=job["src"], item=f"{name}::{fname}", bytes=[fa, fb], sha256=sha(s[fa:fb])))
                 parts.append(head + "\n" + "\n\n".join(fn_texts) + "\n}\n")
+            elif kind == "block":
+                # a `{ ... }` block INSIDE a function (e.g. one match arm of an actor loop), cut verbatim and pasted between a
+                # hand-written wrapper head and tail (the wrapper's signature names the variables the block uses)
+                m = find_code(s, mask, it["anchor"])
+                if not m:
+                    raise LostAnchor(f"block anchor /{it['anchor']}/ not found in {job['src']}")
+                i = m.end()
+                while i < len(s) and not (mask[i] and not s[i].isspace()):
+                    i += 1
+                if i >= len(s) or s[i] != '{':
+                    raise LostAnchor(f"block {name}: no `{{` after the anchor")
+                b = match_brace(s, i)
+                t = s[i:b]
+                if job.get("deasync"):
+                    t = deasync(t, info, f"{job['src']}:{name}")
+                parts.append(it["wrap_head"] + "\n" + t + "\n" + it["wrap_tail"] + "\n")
+                info["slices"].append(dict(src=job["src"], item=f"block {name}", bytes=[i, b], sha256=sha(s[i:b])))
             else:
                 a, b, _ = slice_item(s, mask, kind, it.get("header", name) if kind == "impl" else name)
                 t = s[a:b]
